@@ -637,7 +637,47 @@ def r11(led, rid, ctx):
     led.floor(rid, "writes of next_local_id", n, 1)
 
 
+def r12(led, rid, ctx):
+    """MUST-PASS: a conflict the wrapped propagator reported while the literal was not yet true is
+    cached; `propagate` consumes the cache on every path and turns it into r = false (or into the
+    conflict, when r is already true) under no other condition than the cache being filled"""
+    lib = ctx.lib
+    f = reif_method(lib, "propagate")
+    R = resolver(f)
+    cfg = f.cfg
+    takes = [c for c in f.calls if c.name in ("take", "as_ref", "clone", "is_some") and c.args
+             and "inconsistency" in R.operand(c.args[0]).fields()]
+    if not takes:
+        raise AnchorMissing("the read of ReifiedPropagator::inconsistency in propagate")
+    t = takes[0]
+    dom = all(cfg.dominates(t.bb, r) for r in cfg.returns)
+    led.check(dom, rid, "propagate:cache-consumed-on-every-path", t.span, "the read dominates every return",
+              "ReifiedPropagator::propagate reads the cached inconsistency only on some paths: when it is "
+              "skipped (e.g. because the literal is already fixed) a conflict of the wrapped propagator found "
+              "at the root is dropped, and propagators that do not re-detect it accept violating assignments")
+    sets = [c for c in f.calls if c.name == "assign_literal" and cfg.dominates(t.bb, c.bb)]
+    if not sets:
+        raise AnchorMissing("assign_literal after the cache read in ReifiedPropagator::propagate")
+    c = sets[0]
+    extra = []
+    for g in guards_of(f, c.bb):
+        if not cfg.dominates(t.bb, g.edge.node) and g.edge.node != t.bb:
+            extra.append(show(g.atom)[:60])
+            continue
+        a = peel(g.atom, calls=None)
+        if a.k == "discr" or (a.k == "call" and a.a.name in ("is_some", "is_none", t.name)):
+            continue
+        extra.append(show(g.atom)[:60])
+    led.check(not extra, rid, "propagate:cache-handled-unconditionally", c.span, "guarded by the cache being filled only",
+              "ReifiedPropagator::propagate turns the cached inconsistency into r = false only if also %s: "
+              "otherwise the conflict is dropped" % ", ".join(extra))
+
+
 def run(ctx, led):
+    from . import C08 as _C08, C17 as _C17
+    run_rule(led, "R13", "a wrapped incremental propagator that is notified but not run under r = false never discards pending updates silently (shared with C08-H5)", _C08.h5, ctx)
+    run_rule(led, "R14", "INCREMENTAL-RESET of un-trailed accumulators on backtrack (shared with C17-L20)", _C17.l20, ctx)
+    run_rule(led, "R12", "MUST-PASS: propagate consumes the cached inconsistency on every path, under no further condition", r12, ctx)
     run_rule(led, "R1", "the wrapped propagator runs only under r true, on a reified context, and its "
              "conflict gets [r = true]", r1, ctx)
     run_rule(led, "R2", "FORWARD-ALL(ReifiedPropagator, Propagator): every hook the engine raises is "
